@@ -45,6 +45,8 @@ fn substitute(
                     }
                     let offset =
                         *journaled_sp - (*journaled_sp & bitmask.clone().try_to_i64().unwrap());
+                    // The stack pointer is aligned after this operation.
+                    *journaled_sp -= offset;
                     let sp = sp.clone();
                     *op = BinOpType::IntSub;
 
